@@ -458,7 +458,7 @@ POOL = [
     ("long-hetero", '[2, "a", 1, null, 3, "b", true, 1, [1], 2, {k: 1}, 0, "c", 1, null, false, 2, "a", 0, 2, 3, [2], "z", 1]'),
     ("empty-list", "[]"), ("nums", "[3, 1, 2]"), ("nested", "[[1], [2, [3]]]"), ("hetero", '[1, "a", null, true, [2], {k: 1}]'),
     ("nan-list", "[0/0, 1, inf]"), ("strs", '["b", "a", "é"]'), ("bools", "[true, false]"),
-    ("empty-rec", "{}"), ("rec", '{a: 1, "b c": [2], é: null}'),
+    ("empty-rec", "{}"), ("rec", '{a: 1, "b c": [2], "é": null}'),
     ("lam1", "(x => x)"), ("lam2", "((a, b) => a)"), ("lam-opt", "((a, b?) => b)"), ("lam-rest", "((...r) => r)"),
     ("lam-str", '(x => "k")'), ("lam-err", "(x => x + nope)"), ("lam-bool", "(x => true)"), ("lam0", "(() => 1)"),
     ("builtin", "sum"), ("builtin-hof", "map"), ("true", "true"), ("null", "null"),
